@@ -8,7 +8,8 @@
 (* method through the framing of an actual render, forced support also       *)
 (* through the instantiation gate).                                          *)
 (*                                                                         *)
-(*   trace = [fam, par, nc, dm, geo, init, ev]   (dm: derived-metaclass flags) *)
+(*   trace = [fam, par, nc, dm, fl, geo, init, ev]   (dm: derived-metaclass      *)
+(*           flags, fl: classes whose instances are falsy)                    *)
 (*   geo   = [cw, ch, rw, rh, ow, oh]: cell px, rendered cells, source px     *)
 (*   init  = override maps the history starts from (all unset for recorded   *)
 (*           histories; the spec state for replayed edges, see the driver)   *)
@@ -35,14 +36,14 @@ VARIABLES tid, l, S, Hc, Hi, verdict, at, vset
 vars == <<tid, l, S, Hc, Hi, verdict, at, vset>>
 
 Tr == Traces[tid]
-T == [par |-> Tr.par, nc |-> Tr.nc, dm |-> Tr.dm]
+T == [par |-> Tr.par, nc |-> Tr.nc, dm |-> Tr.dm, fl |-> Tr.fl]
 Fam == Tr.fam
 G == Tr.geo
 NE == Len(Tr.ev)
 
 WFTrace(tr) ==
   /\ tr.fam \in {"kitty", "iterm2"}
-  /\ WellFormedTree([par |-> tr.par, nc |-> tr.nc, dm |-> tr.dm])
+  /\ WellFormedTree([par |-> tr.par, nc |-> tr.nc, dm |-> tr.dm, fl |-> tr.fl])
   /\ \A set \in Settings : Len(tr.init[set]) = Len(tr.par)
   /\ WellFormedGeo(tr.geo)
 
